@@ -15,6 +15,7 @@ type verifC13Prog struct {
 	mod   string   // source of module "m" (if imported)
 	mod2  string   // source of module "m2" (if imported, by the script or by m)
 	frag2 string   // second Eval fragment (if any)
+	bad   string   // an Eval fragment evaluated first that fails (its failure is expected and ignored)
 	uses  []string // builtin names referenced without an own declaration
 }
 
@@ -41,6 +42,12 @@ var verifC13Progs = [...]verifC13Prog{
 	{src: `g := func() { if true { return func() { return import("m") } }; return 0 }; return g()()`, mod: `return func() { return string(2) }()`, uses: []string{"string"}},
 	{src: `a := func() { return import("m") }; b := import("m2"); return [a(), b, import("m")]`, mod: `return len("q")`, mod2: `return int("2")`, uses: []string{"len", "int"}},
 	{src: `f := func() { return import("m") }; return f()`, mod: `g := func() { return import("m2") }; return g()`, mod2: `return string(len("ab"))`, uses: []string{"string", "len"}},
+	// 20-23: Eval sessions in which earlier fragments failed (unresolved name, parse
+	// error, a run-time error, a failing import)
+	{bad: `q := notDeclared + 1`, src: `x := 1`, frag2: `return len("ab") + x`, uses: []string{"len"}},
+	{bad: `x := (`, src: `y := "s"`, frag2: `return typeName(y) + string(1)`, uses: []string{"typeName", "string"}},
+	{bad: `z := 1 / 0`, src: `w := 2`, frag2: `f := func() { return int("3") + w }; return f()`, uses: []string{"int"}},
+	{bad: `return import("nosuchmodule")`, src: `v := [1, 2]`, frag2: `return len(v)`, uses: []string{"len"}},
 }
 
 // verifFindBuiltinRefs scans every compiled function for OpGetBuiltin operands.
@@ -125,7 +132,7 @@ func VerifC13Disabled() {
 	var failed bool
 	var bcs []*Bytecode
 	verifrt.NoPanic("compile-run-no-panic", func() {
-		if pr.frag2 == "" {
+		if pr.frag2 == "" && pr.bad == "" {
 			bc, err := Compile([]byte(pr.src), opts)
 			failed = err != nil
 			if err == nil {
@@ -134,6 +141,12 @@ func VerifC13Disabled() {
 			}
 		} else {
 			e := NewEval(opts, nil)
+			if pr.bad != "" {
+				// a failing fragment first (twice: a retry must fail the same way)
+				_, _, berr := e.Run(context.Background(), []byte(pr.bad))
+				_, _, berr2 := e.Run(context.Background(), []byte(pr.bad))
+				verifrt.Assert(berr != nil && berr2 != nil, "bad-fragment-fails")
+			}
 			_, bc, err := e.Run(context.Background(), []byte(pr.src))
 			if err == nil {
 				bcs = append(bcs, bc)
